@@ -81,6 +81,20 @@ fn c03(r: &mut Rng, i: u64, p: &HashMap<String, String>) -> Vec<Value> {
     let mut body = g.flow(0);
     let pressure = r.chance(1, 8);
     if pressure { let mut cells = vec![]; let t = pressure_table(r, &mut cells); let at = r.below(body.len() as u64 + 1) as usize; body.insert(at, t); }
+    // a shape of its own: a table inside a cell whose only text sits in a cell spanning columns that are otherwise
+    // empty (its size estimate is spread over the columns it spans: nothing of it may be rounded away)
+    if r.chance(1, 15) {
+        let k = r.range(2, 5) as usize;
+        let word: String = (0..r.range(1, 4)).map(|j| (b'q' + j as u8) as char).collect();
+        let inner = N::el("table", vec![N::el("tr", (0..k).map(|_| N::el("td", vec![])).collect()),
+                                        N::el("tr", vec![N::ela("td", vec![("colspan", format!("{}", k))], vec![N::T(word)])])]);
+        let other = N::el("td", vec![N::T("aaaa bbbb cccc".into())]);
+        let cell = N::el("td", vec![inner]);
+        let row = if r.chance(1, 2) { vec![other, cell] } else { vec![cell, other] };
+        let html = doc_html(&[N::el("table", vec![N::el("tr", row)])]);
+        let deco = *r.pick(&["plain", "rich", "trivial"]);
+        return vec![json!({"id": id("c03", i), "runs": [run(&html, r.range(8, 60), cfg(deco, vec![]), route_for(deco, r))]})];
+    }
     // a shape of its own: short cells around columns that are empty in every row, at widths around the least
     // width the table needs side by side (every text must survive, however the room is given out)
     if r.chance(1, 12) {
